@@ -1,8 +1,8 @@
 #!/bin/bash
 # run an exhaustive TLC configuration: mc.sh <module> <cfg> [extra tlc args]
 M=$1; C=$2; shift 2
-D=$(mktemp -d /verif/run/mc.XXXX)
-cd /verif/spec && timeout ${MC_TIMEOUT:-3000} java -Xmx${MC_HEAP:-20g} -Xss512m -XX:+UseParallelGC -cp /opt/veriftools/tla/tla2tools.jar:/opt/veriftools/tla/CommunityModules-deps.jar tlc2.TLC -noGenerateSpecTE -deadlock -workers ${MC_WORKERS:-16} -metadir $D/md -config $C "$@" $M > $D/out.txt 2>&1
+D=$(mktemp -d ${VERIF_HOME:-/verif}/run/mc.XXXX)
+cd ${VERIF_HOME:-/verif}/spec && timeout ${MC_TIMEOUT:-3000} java -Xmx${MC_HEAP:-20g} -Xss512m -Djava.io.tmpdir=$D -XX:+UseParallelGC -cp /opt/veriftools/tla/tla2tools.jar:/opt/veriftools/tla/CommunityModules-deps.jar tlc2.TLC -noGenerateSpecTE -deadlock -workers ${MC_WORKERS:-16} -metadir $D/md -config $C "$@" $M > $D/out.txt 2>&1
 rc=$?
 grep -E "^Error|is violated|states generated|depth of the complete|Finished in|No error" $D/out.txt | head -20
 echo "(rc=$rc output in $D/out.txt)"
